@@ -49,6 +49,16 @@ def graph(k):
     td = "TdI64_%d" % k
     d[n("En")] = struct([field(1, "default", dict(T("enum"), gotype=td, ann=td)), field(2, "default", L(dict(T("enum"), gotype=td, ann=td)))])
     d[n("Ei")] = struct([field(1, "default", dict(T("i64"), gotype=td, ann="i64")), field(2, "default", L(dict(T("i64"), gotype=td, ann="i64")))])
+    # nocopy fields next to ordinary strings (what a failed decode of this type leaves in the recycled decoder must not turn
+    # the next type's strings into views), and a type with declared defaults met on its own and nested by value
+    d[n("Nc")] = struct([field(1, "default", T("string"), nocopy=True), field(2, "default", T("string")), field(3, "default", T("binary"), nocopy=True),
+                         field(4, "default", L(T("string")))])
+    df = struct([field(1, "optional", T("i32")), field(2, "optional", T("string")), field(3, "default", T("i64"))], init=True)
+    df["fields"][0]["def"] = [0, 0, 0, 3]
+    df["fields"][1]["def"] = list(b"safe")
+    d[n("Df")] = df
+    d[n("DfN")] = struct([field(1, "default", ST(n("Df"), False)), field(2, "default", L(ST(n("Df"), False))), field(3, "default", M(T("string"), ST(n("Df"), False))),
+                          field(4, "optional", ST(n("Df"), True))])
     # only fixed-size fields plus the holder (every size shortcut applies, the retained bytes still count), alone and as elements
     d[n("FxH")] = struct([field(1, "default", T("i32")), field(2, "required", T("i64")), field(3, "default", T("double"))], unk=True)
     d[n("FxHL")] = struct([field(1, "default", L(ST(n("FxH"), False))), field(2, "default", L(ST(n("FxH"), True))), field(3, "default", ST(n("FxH"), False))])
@@ -97,7 +107,7 @@ def run(prop, tier, seed, work):
     defs_path = vlib.write_defs(work, defs)
     # reference-encoded messages (and mutants) for copy 0's types; other copies get the same
     # bytes since their schemas are identical up to names
-    base = ["In", "Rq", "Rq2", "Hd", "Mp", "Top", "En", "Ei", "FxL", "FwL", "FxH", "FxHL"]
+    base = ["In", "Rq", "Rq2", "Hd", "Mp", "Top", "En", "Ei", "FxL", "FwL", "FxH", "FxHL", "Nc", "Df", "DfN"]
     older = {"FxL": "FwL"}       # reader -> a writer with an older schema of it
     badtypes = ["BX", "BY", "BA", "BB", "Bd"]
     cases = []
@@ -109,6 +119,12 @@ def run(prop, tier, seed, work):
         rest = [x for x in vs if x not in head]
         rng.shuffle(rest)
         vs = (head + rest)[:6]
+        if b == "DfN":
+            # nested values equal to their declared defaults: nothing of them is on the wire, the reader's initialiser supplies them
+            dd_ = U.default_struct("Df_0", defs)
+            bb_ = U.base_value({"k": "struct", "ptr": False, "s": "Df_0"}, defs, 1, 4)
+            vs = [("alldef", {"f": {"1": dd_, "2": {"nil": False, "items": [dd_, bb_, dd_]}, "3": {"nil": False, "ents": [[list(b"a"), bb_], [list(b"b"), dd_]]},
+                                    "4": {"p": 1, "v": dd_}}, "unk": []})] + vs[:5]
         vals[b] = vs
         cases.append({"cid": "%s|z|ok" % b, "w": s, "val": U.zero_struct(s, defs), "ord": "asc", "trail": [], "mut": "none"})
         for i, (lbl, v) in enumerate(vs):
@@ -164,10 +180,14 @@ def run(prop, tier, seed, work):
                     f1 = "nil_struct_with_required_fields" in checks_codec.struct_tags(n(b), v, defs)
                     if rng.random() < 0.5 and not f1:   # (F1 values do not round-trip, whatever the history)
                         steps.append({"op": "decode", "ty": n(b), "from": len(steps) - 1, "dest": "fresh", "orig": vi})
-        # objects decoded earlier in the sequence must still hold what they held
+        # objects decoded earlier in the sequence must still hold what they held - also after the caller has reused the
+        # buffers they were decoded from (only fields declared nocopy may follow the buffer)
         kept = [i for i, st in enumerate(steps) if st.get("op") == "decode"][:8]
         for i in kept:
             steps.append({"op": "recheck", "obj": i, "after": "end"})
+        for i in kept[:4]:
+            steps.append({"op": "overwrite", "obj": i, "byte": 238})
+            steps.append({"op": "recheck", "obj": i, "after": "overwrite"})
         sid = "C07-seq-%d" % k
         scen.append({"sid": sid, "prop": prop, "vals": svals, "steps": steps, "tags": [], "dkey": sid})
     # systematic: the same type by value with different values in a row (the by-value argument travels through a per-type slot),
